@@ -16,6 +16,7 @@ def check(prop, tier, seed):
     if os.environ.get("VERIF_RUNS"):
         total = int(os.environ["VERIF_RUNS"])
     budget = cfg["quick_budget"] if quick else cfg["thorough_budget"]
+    budget = int(os.environ.get("VERIF_BUDGET", budget))  # seconds; for trying a tier out under a shorter wall-clock budget
     seed0 = seed * 1000003
     outs_rt = orch.run_workers(work, binary, prop, tier, seed0, total, budget / 2)
     n1, k1, det1 = orch.triage(work, binary, prop, tier, outs_rt)
